@@ -28,7 +28,7 @@ Definition chan_eqb (a b : chanid) : bool :=
     the owner is not named by the label, so it is attributed to the loop and, conservatively, to every writer) *)
 Definition in_thread (l : label) (t : thread) : bool :=
   match l, t with
-  | Enq w, TW x | RdHave w _, TW x | RdLen w _, TW x | SendTok w, TW x | InlFl w, TW x => w =? x
+  | Enq w, TW x | RdHave w _, TW x | SendTok w, TW x | InlFl w, TW x => w =? x
   | LAckL, TW _ => true
   | (LStart | LRecv | LTick | LCkpt | LFl | LAckL | LShut | LShutC), TL => true
   | EnvShut, TEnv => true
